@@ -60,7 +60,7 @@ impl Property for C09 {
 
     fn cases(&self, tier: Tier) -> u32 {
         match tier {
-            Tier::Quick => 1_200,
+            Tier::Quick => 8_000,
             Tier::Thorough => 30_000,
         }
     }
